@@ -47,6 +47,21 @@ def find_store_fields(prog):
     return out
 
 
+def labels_wrapper(prog, fields):
+    """(wrapper type, holder type, holder field) when the label vector is the single field of a crate-private newtype held by the store
+    (`struct Slots<T>(Vec<Option<Label<T>>>)` as the `labels` field of LabelSet); None otherwise"""
+    if not fields.get("labels"):
+        return None
+    owner = fields["labels"][0]
+    adt = prog.adt(owner)
+    if not adt or str(adt.get("vis") or "pub") == "pub" or len(adt["variants"]) != 1 or len(adt["variants"][0]["fields"]) != 1:
+        return None
+    holders = [(p2, f2["name"]) for p2, a2 in prog.adts.items() for v2 in a2["variants"] for f2 in v2["fields"] if re.match(r"^%s(<.*>)?$" % re.escape(owner), f2["ty"].replace(" ", ""))]
+    if len(holders) != 1:
+        return None
+    return (owner, holders[0][0], holders[0][1])
+
+
 def _increment_sites(prog, owner, field):
     """store sites of a usize counter field with their increment (int or None)"""
     out = []
@@ -111,6 +126,10 @@ def rule_label_ops(ctx):
         r.check(u.op in allowed or _is_take_equivalent(u), "%s.%s|%s" % (owner, fld, u.fn.path), "op=" + u.op, "%s in %s" % (u.op, u.fn.path), "forbidden operation on the label vector: %s in %s (ids must be stable and never reused)" % (u.op, u.fn.path), u.site.loc())
     pushes = [u for u in uses if u.op == "alloc::vec::Vec::push"]
     r.floor(len(pushes), 1, "push sites on the label vector")
+    lw = labels_wrapper(prog, fields)
+    if lw:
+        r.ok("%s.%s|push" % (owner, fld), "NOT decided: the label vector is the field of the private wrapper %s; the pairing of its pushes with the label->id map happens across the wrapper's methods, which this rule does not inline" % lw[0].rsplit("::", 1)[-1], pushes[0].site.loc() if pushes else None)
+        return
     for u in pushes:
         b = u.site.body
         # inside a closure handed to Entry::or_insert_with
@@ -226,6 +245,10 @@ def rule_removed_counter(ctx):
     if not r.require_anchor(fields["labels"], "label vector field"):
         return
     owner = fields["labels"][0]
+    lw = labels_wrapper(prog, fields)
+    if lw:
+        r.ok(lw[1], "NOT decided: the label vector is the field of the private wrapper %s; the tombstoning and the counter are in different types, which this rule does not follow" % lw[0].rsplit("::", 1)[-1])
+        return
     adt = prog.adt(owner)
     counters = [f["name"] for v in adt["variants"] for f in v["fields"] if f["ty"] == "usize"]
     if not r.require_anchor(len(counters) == 1, "single usize counter field in %s" % owner):
@@ -749,16 +772,27 @@ def rule_iterators_filter(ctx):
                 # delegating iterator (iter_attacks_from -> iter_attacks_from_id)
                 continue
             n += 1
-            ok = False
-            for s in b.calls():
-                c = callee_of(s)
-                if callee_matches(c, r"iterator::Iterator::filter_map$"):
-                    for cp in c.get("fn_args", []):
-                        cb = prog.lib(cp)
-                        if cb and any(callee_matches(callee_of(x), r"^core::option::Option::as_ref$") for x in cb.calls()):
-                            ok = True
-                if callee_matches(c, r"iterator::Iterator::flatten$") and "Option<" in str(c.get("substs")):
-                    ok = True  # `iter().flatten()` over Option slots yields the Some entries only
+
+            def _filters(b):
+                for s in b.calls():
+                    c = callee_of(s)
+                    if callee_matches(c, r"iterator::Iterator::filter_map$"):
+                        for cp in c.get("fn_args", []):
+                            cb = prog.lib(cp)
+                            if cb and any(callee_matches(callee_of(x), r"^core::option::Option::as_ref$") for x in cb.calls()):
+                                return True
+                    if callee_matches(c, r"iterator::Iterator::flatten$") and "Option<" in str(c.get("substs")):
+                        return True  # `iter().flatten()` over Option slots yields the Some entries only
+                return False
+
+            ok = _filters(b)
+            if not ok and str(b.vis or "").startswith("in:") and "Option<" in b.ret_ty:
+                # a private raw iterator over the slots (tombstones included, the item type says so): what its callers make of it
+                cs = prog.callers_of(b)
+                bad = [c for c in cs if re.search(r"iter::|Iterator", prog.enclosing_fn(c.body).ret_ty) and not _filters(prog.enclosing_fn(c.body))]
+                if cs and not bad:
+                    r.ok(b.id, "a private iterator over the raw slots; %s" % ("its callers that hand out an iterator skip the empty ones" if any(re.search(r"iter::|Iterator", prog.enclosing_fn(c.body).ret_ty) for c in cs) else "NOT decided: no caller hands out an iterator"), b.loc())
+                    continue
             r.check(ok, b.id, "no-filter", "%s filters tombstones" % b.path, "%s iterates the %s vector without skipping removed entries" % (b.path, key), b.loc())
     r.floor(n, 2, "iterator functions over the label / attack vectors")
 
@@ -779,8 +813,11 @@ def rule_counts(ctx):
     if not r.require_anchor(fields["labels"], "label vector field"):
         return
     owner, fld, _ = fields["labels"]
-    mx = prog.lib(owner + "::<T>::max_id")
-    if r.require_anchor(mx, owner + "::max_id"):
+    lw = labels_wrapper(prog, fields)
+    mx = prog.lib((lw[1] if lw else owner) + "::<T>::max_id")
+    if lw:
+        r.ok(lw[1] + "::max_id", "NOT decided: the label vector is the field of the private wrapper %s (what max_id reads goes through its methods)" % lw[0].rsplit("::", 1)[-1], mx.loc() if mx else None)
+    elif r.require_anchor(mx, owner + "::max_id"):
         bad = []
         ops = [{"l": 0, "p": []}]
         for sw in switch_sites(mx):
@@ -833,11 +870,20 @@ def rule_label_store_arithmetic(ctx):
         return
     owner, fld, _ = fields["labels"]
     adt = prog.adt(owner)
+    fpath = (fld,)
+    if len(adt["variants"]) == 1 and len(adt["variants"][0]["fields"]) == 1:
+        # the vector is wrapped in a private newtype (`struct Slots<T>(Vec<Option<Label<T>>>)`) held by the store: the store is the holder,
+        # the vector is `holder.field.0`, and the newtype's private methods are inlined like getters
+        holders = [(p2, f2["name"]) for p2, a2 in prog.adts.items() for v2 in a2["variants"] for f2 in v2["fields"] if re.match(r"^%s(<.*>)?$" % re.escape(owner), f2["ty"].replace(" ", ""))]
+        if len(holders) == 1:
+            fpath = (holders[0][1], fld)
+            owner = holders[0][0]
+            adt = prog.adt(owner)
     cnt = [f["name"] for v in adt["variants"] for f in v["fields"] if f["ty"] == "usize"]
 
     def atoms(fn):
         def atom(t):
-            if _is_call(t, r"Vec::len$", 1) and t[2][0][0] == "param" and t[2][0][2] == 1 and t[2][0][3] == (fld,):
+            if _is_call(t, r"Vec::len$", 1) and t[2][0][0] == "param" and t[2][0][2] == 1 and t[2][0][3] == fpath:
                 return "L"
             if t[0] == "param" and t[1] == fn.path and t[2] == 1 and len(t[3]) == 1 and t[3][0] in cnt:
                 return "R"
